@@ -92,8 +92,8 @@ PROPS = {
         "text": "size limit, losslessness, termination/rejection proved for all archives and all maxima; split family: every max around the overhead on real archives, parts re-read",
     },
     "C10": {
-        "lean": ["PnaVerif.Props.Consts", "PnaVerif.Props.C10"],
-        "families": ["edit", "fault"],
+        "lean": ["PnaVerif.Props.Consts", "PnaVerif.Props.C10", "PnaVerif.Props.C10Mode"],
+        "families": ["edit", "fault", "cli-codec"],
         "cli": True,
         "trusted": COMMON_TRUST + ["globset (selection) and the system user database (chown) enter as oracle answers", "clap argument parsing"],
         "text": "per-command spec (frame+target+order) and idempotence proved over the transform model for both solid strategies; real pna editing runs compared with the model and with a frame/target/idempotence oracle",
